@@ -79,7 +79,7 @@ func genRFaultLargeCase(t *rapid.T, prop string) *Case {
 }
 
 func genROp(t *rapid.T, nest bool) ROp {
-	op := ROp{Kind: rapid.SampledFrom([]int{ROpDict, ROpDict, ROpPostings, ROpPostings, ROpPostings, ROpStored, ROpStored, ROpDocValues, ROpDocValues, ROpDMT, ROpStats, ROpPersist}).Draw(t, "ropkind")}
+	op := ROp{Kind: rapid.SampledFrom([]int{ROpDict, ROpDict, ROpPostings, ROpPostings, ROpPostings, ROpStored, ROpStored, ROpDocValues, ROpDocValues, ROpDMT, ROpStats, ROpPersist, ROpSize}).Draw(t, "ropkind")}
 	switch op.Kind {
 	case ROpDict, ROpStats:
 		op.Field = rapid.IntRange(0, 7).Draw(t, "field")
@@ -88,6 +88,13 @@ func genROp(t *rapid.T, nest bool) ROp {
 		op.Term = rapid.IntRange(0, 12).Draw(t, "term")
 		op.Absent = rapid.IntRange(0, 9).Draw(t, "absent") == 0
 		op.Flags = rapid.IntRange(0, 7).Draw(t, "flags")
+		if op.Kind == ROpDMT {
+			// further (field, term) entries, typically of other fields
+			k := rapid.IntRange(0, 4).Draw(t, "dmtmore")
+			for i := 0; i < k; i++ {
+				op.Docs = append(op.Docs, rapid.IntRange(0, 7).Draw(t, "dmtfield"), rapid.IntRange(0, 12).Draw(t, "dmtterm"))
+			}
+		}
 	case ROpStored, ROpDocValues:
 		n := rapid.IntRange(1, 3).Draw(t, "ndocs")
 		for i := 0; i < n; i++ {
